@@ -33,7 +33,7 @@ def attribute(why):
 class Knobs:
     def __init__(self, fail_rate=0, notexec_rate=0, undefined_rate=10, delays=False, max_targets=5, slow_deps=True,
                  redirect_rate=0, multi_fail=False, custom_dirs=False, checkpoint=False, chmod=False, listener=False,
-                 sabotage=False, slash=False, force_mode=None, force_fou=None, dense=False, commit_range=False):
+                 sabotage=False, slash=False, force_mode=None, force_fou=None, dense=False, commit_range=False, nested_only=False):
         self.fail_rate = fail_rate          # percent of tasks that exit non-zero
         self.notexec_rate = notexec_rate    # percent of command files without x bit
         self.undefined_rate = undefined_rate
@@ -52,13 +52,14 @@ class Knobs:
         self.force_fou = force_fou          # --fail-on-undefined on / off
         self.dense = dense                  # at least 3 targets, every second possible `uses` edge present
         self.commit_range = commit_range    # changes taken between two explicit commits (--begin / --end), later commits exist
+        self.nested_only = nested_only      # dependencies arise from nesting alone: no target declares `uses`
 
 
 def build(seed, knobs):
     rng = scen.Rng(seed)
     sc = rungen.RunScenario(rng, max_targets=knobs.max_targets, with_argmaps=False, custom_dirs=knobs.custom_dirs,
                             undefined_pct=knobs.undefined_rate, slash=knobs.slash, force_mode=knobs.force_mode,
-                            force_fou=knobs.force_fou, dense=knobs.dense)
+                            force_fou=knobs.force_fou, dense=knobs.dense, nested_only=knobs.nested_only)
     sc.args = []
     if knobs.chmod or knobs.sabotage:
         sc.named, sc.deps = [], False     # every target takes part, so the acting task does too
@@ -85,13 +86,20 @@ def build(seed, knobs):
                 continue
             s = {}
             if rng.below(100) < knobs.fail_rate:
-                s["exit"] = rng.pick([1, 2, 7, 99, 127, 255, rng.range(1, 255)])
+                if rng.chance(1, 6):
+                    s["kill_self"] = True        # ends by a signal: a failure without an exit code
+                else:
+                    s["exit"] = rng.pick([1, 2, 7, 99, 127, 255, rng.range(1, 255)])
             # dependencies slower than dependents: the deeper in the graph (more dependents above), the slower
             base = (maxd - depth[i]) * 25 if knobs.slow_deps and rng.chance(2, 3) else 0
             s["sleep_ms"] = base + rng.pick([0, 0, 5, 20, 60])
             if rng.below(100) < knobs.redirect_rate and "exit" not in s:
                 s["redirect"] = True
                 s["sleep_ms"] += 150
+            if rng.chance(1, 12):
+                # far more than a pipe holds on one stream while the other stays open
+                blk = (("%s|%s " % (c, p)) + "e" * 200 + "\n").encode() * 16
+                s["repeat"] = [[rng.range(25, 60), rng.pick([2, 2, 1]), blk.hex()]]
             if rng.chance(1, 3):
                 # what a child prints is its own business: text in any encoding, not only UTF-8
                 junk = rng.pick([b"", b"", b"caf\xe9 ", b"\xff\xfe ", b"\xe2\x82 "])
@@ -169,6 +177,8 @@ def disp_of(sc, c, p):
         return sc.dyn_disp[(c, p)]       # the x bit is changed by an earlier command of the same run
     lay = sc.cmd_layout[p]
     if lay["defs"].get(c):
+        if (c, p) in getattr(sc, "missing_defs", ()):
+            return "notexec"                                   # the defined file does not exist
         return "notexec" if (c, p) in sc.notexec else "run"   # a definition with an explicit path
     if lay["files"].get(c) is None:
         return "undefined"
@@ -293,6 +303,10 @@ def observe(sc, repo, model, timeout=120):
     if doc_cmds != cmds:
         verdicts.append(("C04", {"kind": "commands were not executed in the documented order", "scenario": desc,
                                  "expected": cmds, "observed": doc_cmds}))
+        if sorted(doc_cmds) != sorted(cmds):
+            # a requested command is missing from (or an unrequested one present in) the result document
+            verdicts.append(("C05", {"kind": "a planned (command,target) pair does not have exactly one result entry", "scenario": desc,
+                                     "expected_commands": cmds, "observed_commands": doc_cmds}))
         return verdicts, info
     # expected selection / structure
     exp_targets = sc.expected_targets()
@@ -381,7 +395,7 @@ def observe(sc, repo, model, timeout=120):
             for t, e in g.items():
                 results.append([ids[(r["command"], t)], e["status"], e.get("code")])
     traces = repo.traces()
-    started, ended, times = [], [], []
+    started, ended, times, killed = [], [], [], []
     # the helper names its target by its working directory: "core" for a target declared as "core/"
     label = {t["path"].rstrip("/"): t["path"] for t in sc.targets}
     for tr in traces:
@@ -391,9 +405,12 @@ def observe(sc, repo, model, timeout=120):
             continue
         started.append(ids[k])
         if "end_ns" in tr:
-            ended.append([ids[k], tr["exit"]])
+            if "signal" in tr:
+                killed.append(ids[k])
+            else:
+                ended.append([ids[k], tr["exit"]])
             times.append([ids[k], tr["start_ns"], tr["end_ns"]])
-    obs = {"results": results, "failed": j["failed"], "exit": rc, "started": started, "ended": ended, "times": times}
+    obs = {"results": results, "failed": j["failed"], "exit": rc, "started": started, "ended": ended, "times": times, "killed": killed}
     # C04, judged on the processes themselves (the helper records of every started executable),
     # independently of the result document: (1) a target's executable starts only after the
     # executables of everything it depends on (documented relation, recomputed here from the
@@ -448,7 +465,7 @@ def observe(sc, repo, model, timeout=120):
     inputs = []
     for e in order:
         r = res_by_id[e[0]]
-        inputs.append([e[0], r[2] if r[1] in ("success", "error") else None])
+        inputs.append([e[0], None if e[0] in killed else (r[2] if r[1] in ("success", "error") else None)])
     # started but never recorded an end (torn down): aborted
     for i in started:
         if i not in [e[0] for e in order]:
